@@ -1,5 +1,428 @@
-import EnvVerif.Lemmas.Basic
+/-
+  Props/C16.lean — C16 "no operation panics".
+
+  In the model every `unwrap()`, `expect`, `assert!`, slice index and `panic!` of the
+  modelled Rust functions is an explicit `Res.panic "<site>"` branch, so
+  `f … ≠ .panic s` (for every `s`) says: the call returns a value, `None` or an error.
+
+  One theorem per modelled public operation.  Hypotheses, all explicit:
+  * `Inv h e` (`WF` ∧ `Canon`, the invariant of every envelope the library builds or
+    decodes: C04 `history_inv_all`, `produced_inv_all`), or only its `Canon e` half where
+    that is all the operation needs; NO hypothesis where the operation cannot panic on
+    any value of the model type (most of them: the `unwrap()` sits on
+    `add_assertion_envelope(new_assertion(..))`, which cannot fail, or on a lookup that
+    was repaired to go through `subject()`);
+  * `HashValid h` ("the hash returns 32 bytes") for the operations that encrypt.  The
+    codec fact that `new_with_encrypted(..).unwrap()` relies on (`AadLaw`) is *proved* for
+    the model codec (`NP.aadLaw`), it is not a hypothesis.
+  Where an operation CAN panic in the model the exact condition is stated
+  (`…_panic_iff`): `new_with_unchecked_assertions` / `new_with_assertions` on the empty
+  list (crate-private, never called with one), `replace_subject` when an old assertion is
+  not a legal slot (impossible under `Canon`), `add_signature_opt` when a metadata element
+  is not an assertion (documented precondition), the traversal on a non-canonical node
+  (`c16_elideSet_panics_without_canon`).
+
+  Definitions used: `NP.NoPanic`-free statements (plain `≠ .panic s`); `Op`, `applyOp`,
+  `runHistory`, `Produced` (Lemmas/InvLemmas.lean); `HashValid` (Lemmas/ElideLemmas.lean).
+-/
+import EnvVerif.Lemmas.NoPanicLemmas
 namespace EnvVerif
-/-- placeholder while the property theorems are being written -/
-theorem c16_sort_asc_id {as : List Env} (hs : AscDigests as) : sortByDigest as = as := sortByDigest_of_asc hs
+open Env InvL
+
+section
+variable (h : Hash) (A : Aead) (Z : Deflate) (V : SigScheme)
+
+/-! ### `envelope.rs`, `assertions.rs`, `wrap.rs` -/
+
+/-- `new_with_unchecked_assertions`: the `assert!` fires exactly on the empty list -/
+theorem c16_newNodeUnchecked_panic_iff (s : Env) (as : List Env) :
+    (∃ p, newNodeUnchecked h s as = .panic p) ↔ as = [] :=
+  NP.newNodeUnchecked_panic_iff h s as
+
+theorem c16_newNodeUnchecked_no_panic (s : Env) {as : List Env} (hne : as ≠ []) (p : String) :
+    newNodeUnchecked h s as ≠ .panic p :=
+  NP.newNodeUnchecked_np h hne p
+
+example : [sA2, sA1] ≠ [] := by simp
+
+/-- `new_with_assertions`: reaches that `assert!` exactly on the empty list as well (the
+slot check passes vacuously) -/
+theorem c16_newNode_panic_iff (s : Env) (as : List Env) :
+    (∃ p, newNode h s as = .panic p) ↔ as = [] :=
+  NP.newNode_panic_iff h s as
+
+theorem c16_newNode_no_panic (s : Env) {as : List Env} (hne : as ≠ []) (p : String) :
+    newNode h s as ≠ .panic p :=
+  fun hp => hne ((NP.newNode_panic_iff h s as).1 ⟨p, hp⟩)
+
+example : [sA2, sA1] ≠ [] := by simp
+
+/-- `add_assertion_envelope`: no hypothesis (the list handed to the constructor has the new
+element in it) -/
+theorem c16_addAssertionEnvelope_no_panic (e a : Env) (s : String) :
+    addAssertionEnvelope h e a ≠ .panic s :=
+  NP.addAssertionEnvelope_np h e a s
+
+/-- `remove_assertion`: no hypothesis (removing the last assertion returns the subject) -/
+theorem c16_removeAssertion_no_panic (e target : Env) (s : String) :
+    removeAssertion h e target ≠ .panic s :=
+  NP.removeAssertion_np h e target s
+
+theorem c16_replaceAssertion_no_panic (e a b : Env) (s : String) :
+    replaceAssertion h e a b ≠ .panic s :=
+  NP.replaceAssertion_np h e a b s
+
+/-- `replace_subject`: its `add_assertion_envelope(..).unwrap()` fires exactly when one of
+the receiver's assertions is not a legal assertion slot -/
+theorem c16_replaceSubject_panic_iff (e s : Env) :
+    (∃ p, replaceSubject h e s = .panic p) ↔ ∃ a ∈ e.assertions, a.slotOk = false :=
+  NP.unwrapFold_panic_iff h _ e.assertions s
+
+/-- … which `Canon` excludes -/
+theorem c16_replaceSubject_no_panic {e : Env} (hc : Canon e) (s : Env) (p : String) :
+    replaceSubject h e s ≠ .panic p :=
+  NP.replaceSubject_np h hc s p
+
+example : Canon sNode := sNode_inv.2
+
+/-- `add_assertion_envelopes`, error propagated: no hypothesis -/
+theorem c16_addAll_no_panic (e : Env) (as : List Env) (s : String) : addAll h e as ≠ .panic s :=
+  NP.addAll_np h e as s
+
+theorem c16_unwrap_no_panic (e : Env) (s : String) : unwrap e ≠ .panic s := NP.unwrap_np e s
+
+/-! ### the decoder: every input -/
+
+theorem c16_envOfCbor_no_panic (c : Cbor) (s : String) : envOfCbor h c ≠ .panic s :=
+  envOfCbor_no_panic h c s
+
+theorem c16_envOfTaggedCbor_no_panic (c : Cbor) (s : String) : envOfTaggedCbor h c ≠ .panic s :=
+  envOfTaggedCbor_no_panic h c s
+
+/-- `from_tagged_cbor_data` on any byte string -/
+theorem c16_decode_no_panic (b : Bytes) (s : String) : decode h b ≠ .panic s :=
+  decode_no_panic h b s
+
+/-! ### `elide.rs` -/
+
+/-- `elide` is a total function of the model (the Rust function has no panic site); as a
+step of the operation language -/
+theorem c16_elide_no_panic (e : Env) (s : String) : applyOp h A Z .elide e ≠ .panic s :=
+  NP.ok (elide e) s
+
+theorem c16_compress_no_panic (e : Env) (s : String) : compress Z e ≠ .panic s :=
+  compress_never_panics Z e s
+
+/-- the action applied to a hit element, all three actions, no hypothesis: `elide` has no
+panic site, `compress().unwrap_or_else(..)` (after the repair) has none, and the aad written
+by `encrypt_with_digest` always declares a digest, so `new_with_encrypted(..).unwrap()`
+does not fire -/
+theorem c16_obscure_no_panic (act : Action) (e : Env) (s : String) : obscure A Z act e ≠ .panic s :=
+  NP.obscure_np_any A Z act e s
+
+/-- `elide_set_with_action`, every target set, both modes, all three actions: none of the
+four `assert!`s, nor the constructor's, nor the `unwrap()` of the encrypt action fires -/
+theorem c16_elideSet_no_panic {e : Env} (hi : Inv h e) (hH : HashValid h) (T : Digest → Bool)
+    (rev : Bool) (act : Action) (s : String) : elideSet h A Z T rev act e ≠ .panic s :=
+  NP.elideSet_np h A Z T rev act hi (NP.actOk hH hi act) s
+
+example : Inv toyHash sNode ∧ HashValid toyHash := ⟨sNode_inv, toyHash_valid⟩
+
+/-- … and it has no error path either: it returns an envelope -/
+theorem c16_elideSet_ok {e : Env} (hi : Inv h e) (hH : HashValid h) (T : Digest → Bool)
+    (rev : Bool) (act : Action) : ∃ r, elideSet h A Z T rev act e = .ok r :=
+  elideSet_ok_inv h A Z T rev act hi (NP.actOk hH hi act)
+
+example : Inv toyHash sNode ∧ HashValid toyHash := ⟨sNode_inv, toyHash_valid⟩
+
+/-- the elide action needs nothing of the hash -/
+theorem c16_elideSet_elide_no_panic {e : Env} (hi : Inv h e) (T : Digest → Bool) (rev : Bool)
+    (s : String) : elideSet h A Z T rev .elide e ≠ .panic s :=
+  NP.elideSet_np h A Z T rev .elide hi trivial s
+
+example : Inv toyHash sNode := sNode_inv
+
+/-- nor does the compress action -/
+theorem c16_elideSet_compress_no_panic {e : Env} (hi : Inv h e) (T : Digest → Bool) (rev : Bool)
+    (s : String) : elideSet h A Z T rev .compress e ≠ .panic s :=
+  NP.elideSet_np h A Z T rev .compress hi trivial s
+
+example : Inv toyHash sNode := sNode_inv
+
+/-- the encrypt action, any key and nonce supply -/
+theorem c16_elideSet_encrypt_no_panic {e : Env} (hi : Inv h e) (hH : HashValid h)
+    (T : Digest → Bool) (rev : Bool) (key : Bytes) (nonce : Digest → Bytes) (s : String) :
+    elideSet h A Z T rev (.encrypt key nonce) e ≠ .panic s :=
+  NP.elideSet_np h A Z T rev _ hi (NP.actOk hH hi _) s
+
+example : Inv toyHash sNode ∧ HashValid toyHash := ⟨sNode_inv, toyHash_valid⟩
+
+/-- `Canon` is needed: a well-formed envelope holding a node stored out of order (which the
+library never builds or decodes) fires the `assert!` of the wrapped case -/
+theorem c16_elideSet_panics_without_canon :
+    ∃ (h : Hash) (e : Env) (s : String), WF h e ∧
+      elideSet h A Z (fun _ => false) false .elide e = .panic s :=
+  elideSet_panics_without_canon A Z
+
+theorem c16_unelide_no_panic (placeholder e : Env) (s : String) : unelide placeholder e ≠ .panic s :=
+  NP.unelide_np placeholder e s
+
+/-! ### `encrypt.rs`, `compress.rs` -/
+
+/-- `encrypt_subject`: neither `new_with_encrypted(..).unwrap()` nor the `assert_eq!` on the
+digests fires -/
+theorem c16_encryptSubject_no_panic {e : Env} (hi : Inv h e) (hH : HashValid h)
+    (key nonce : Bytes) (s : String) : encryptSubject h A key nonce e ≠ .panic s :=
+  encryptSubject_never_panics h A key nonce e hi hH s
+
+example : Inv toyHash sNode ∧ HashValid toyHash := ⟨sNode_inv, toyHash_valid⟩
+
+/-- `decrypt_subject`, any key, on any canonical envelope (an encrypted subject that was
+decoded, or anything else): the decoder does not panic, a canonical node has an assertion -/
+theorem c16_decryptSubject_no_panic {e : Env} (hc : Canon e) (key : Bytes) (s : String) :
+    decryptSubject h A key e ≠ .panic s :=
+  decryptSubject_no_panic h A key e hc s
+
+example : Canon sEnc := sEnc_inv.2
+
+/-- `encrypt` = `wrap_envelope().encrypt_subject(key).unwrap()`: the `unwrap()` does not fire
+on ANY envelope (the wrapped envelope is neither encrypted nor elided) -/
+theorem c16_encryptWhole_no_panic (hH : HashValid h) (key nonce : Bytes) (e : Env) (s : String) :
+    encryptWhole h A key nonce e ≠ .panic s :=
+  NP.of_isOk (NP.encryptWhole_isOk h A hH key nonce e) s
+
+example : HashValid toyHash := toyHash_valid
+
+theorem c16_decryptWhole_no_panic {e : Env} (hc : Canon e) (key : Bytes) (s : String) :
+    decryptWhole h A key e ≠ .panic s :=
+  NP.decryptWhole_np h A key hc s
+
+example : Canon sEncW := sEncW_inv.2
+
+/-- `uncompress`: no hypothesis -/
+theorem c16_uncompress_no_panic (e : Env) (s : String) : uncompress h Z e ≠ .panic s :=
+  uncompress_no_panic h Z e s
+
+/-- `compress_subject`: the `unwrap()` inside `replace_subject` does not fire -/
+theorem c16_compressSubject_no_panic {e : Env} (hi : Inv h e) (s : String) :
+    compressSubject h Z e ≠ .panic s :=
+  compressSubject_no_panic h Z e hi s
+
+example : Inv toyHash sNode := sNode_inv
+
+theorem c16_uncompressSubject_no_panic {e : Env} (hc : Canon e) (s : String) :
+    uncompressSubject h Z e ≠ .panic s :=
+  uncompressSubject_no_panic h Z e hc s
+
+example : Canon sNodeC := sNodeC_inv.2
+
+/-! ### `queries.rs`: no hypothesis (decorated — e.g. salted — assertions included) -/
+
+theorem c16_assertionWithPredicate_no_panic (e p : Env) (s : String) :
+    assertionWithPredicate e p ≠ .panic s :=
+  assertionWithPredicate_no_panic e p s
+
+/-- `object_for_predicate` (after the repair: `.subject().as_object()`): the matching
+element's subject is an assertion, also when the element carries its own assertions -/
+theorem c16_objectForPredicate_no_panic (e p : Env) (s : String) :
+    objectForPredicate e p ≠ .panic s :=
+  objectForPredicate_no_panic e p s
+
+theorem c16_objectsForPredicate_no_panic (e p : Env) (s : String) :
+    objectsForPredicate e p ≠ .panic s :=
+  objectsForPredicate_no_panic e p s
+
+theorem c16_optionalObjectForPredicate_no_panic (e p : Env) (s : String) :
+    optionalObjectForPredicate e p ≠ .panic s :=
+  optionalObjectForPredicate_no_panic e p s
+
+/-! ### `proof.rs` -/
+
+theorem c16_proofContainsSet_no_panic {e : Env} (hi : Inv h e) (T : List Digest) (s : String) :
+    proofContainsSet h A Z e T ≠ .panic s :=
+  (proof_no_fault h A Z e T hi).2 s
+
+example : Inv toyHash sNode := sNode_inv
+
+/-! ### `signature_impl.rs`: verification has no hypothesis -/
+
+theorem c16_hasSignatureFromReturningMetadata_no_panic (key : Nat) (e : Env) (s : String) :
+    hasSignatureFromReturningMetadata h V key e ≠ .panic s :=
+  NP.hasSignatureFromReturningMetadata_np h V key e s
+
+theorem c16_hasSignatureFrom_no_panic (key : Nat) (e : Env) (s : String) :
+    hasSignatureFrom h V key e ≠ .panic s :=
+  NP.hasSignatureFrom_np h V key e s
+
+theorem c16_hasSignaturesFromThreshold_no_panic (keys : List Nat) (threshold : Option Nat)
+    (e : Env) (s : String) : hasSignaturesFromThreshold h V keys threshold e ≠ .panic s :=
+  NP.hasSignaturesFromThreshold_np h V keys threshold e s
+
+/-- `add_signature_opt`: an `unwrap()` fires exactly when some metadata element is not a
+legal assertion slot (the documented precondition "metadata is a list of assertions") -/
+theorem c16_addSignature_panic_iff (e : Env) (sig : Cbor) (metadata : List Env) (outer : Env → Cbor) :
+    (∃ p, addSignature h e sig metadata outer = .panic p) ↔ ∃ a ∈ metadata, a.slotOk = false :=
+  NP.addSignature_panic_iff h e sig metadata outer
+
+theorem c16_addSignature_no_panic (e : Env) (sig : Cbor) {metadata : List Env}
+    (hm : ∀ a ∈ metadata, a.slotOk = true) (outer : Env → Cbor) (s : String) :
+    addSignature h e sig metadata outer ≠ .panic s := by
+  intro hp
+  obtain ⟨a, ha, hs⟩ := (NP.addSignature_panic_iff h e sig metadata outer).1 ⟨s, hp⟩
+  rw [hm a ha] at hs; cases hs
+
+example : ∀ a ∈ [sA1, sA2], a.slotOk = true := by simp [sA_slotOk]
+
+/-! ### `salt.rs`, salted adds, `types.rs`, `attachment_impl.rs`: no hypothesis -/
+
+theorem c16_addSaltInstance_no_panic (e : Env) (salt : Bytes) (s : String) :
+    addSaltInstance h e salt ≠ .panic s :=
+  NP.of_isOk (NP.addSaltInstance_isOk h e salt) s
+
+theorem c16_addSaltWithLen_no_panic (e : Env) (count : Nat) (draw : Nat → Bytes) (s : String) :
+    addSaltWithLen h e count draw ≠ .panic s :=
+  NP.addSaltWithLen_np h e count draw s
+
+/-- `add_assertion_salted(p, o, salted)`: its `unwrap()` does not fire, it always returns an
+envelope -/
+theorem c16_addAssertionSalted_no_panic (e p o : Env) (salt : Option Bytes) (s : String) :
+    addAssertionSalted h e p o salt ≠ .panic s :=
+  NP.of_isOk (NP.addAssertionSalted_isOk h e p o salt) s
+
+theorem c16_addType_no_panic (e t : Env) (s : String) : addType h e t ≠ .panic s :=
+  NP.addAssertionUnwrap_np h e _ t s
+
+theorem c16_types_no_panic (e : Env) (s : String) : types h e ≠ .panic s := NP.types_np h e s
+
+theorem c16_hasTypeEnvelope_no_panic (e t : Env) (s : String) : hasTypeEnvelope h e t ≠ .panic s :=
+  NP.hasTypeEnvelope_np h e t s
+
+theorem c16_getType_no_panic (e : Env) (s : String) : getType h e ≠ .panic s := NP.getType_np h e s
+
+theorem c16_newAttachment_no_panic (payload : Env) (vendor : Bytes) (conformsTo : Option Bytes)
+    (s : String) : newAttachment h payload vendor conformsTo ≠ .panic s :=
+  NP.newAttachment_np h payload vendor conformsTo s
+
+/-- `add_attachment`: its `unwrap()` does not fire, it always returns an envelope -/
+theorem c16_addAttachment_no_panic (e payload : Env) (vendor : Bytes) (conformsTo : Option Bytes)
+    (s : String) : addAttachment h e payload vendor conformsTo ≠ .panic s :=
+  NP.of_isOk (NP.addAttachment_isOk h e payload vendor conformsTo) s
+
+theorem c16_attachmentPayload_no_panic (a : Env) (s : String) : attachmentPayload a ≠ .panic s :=
+  NP.attachmentPayload_np a s
+
+theorem c16_attachmentVendor_no_panic (a : Env) (s : String) : attachmentVendor h a ≠ .panic s :=
+  NP.attachmentVendor_np h a s
+
+theorem c16_attachmentConformsTo_no_panic (a : Env) (s : String) :
+    attachmentConformsTo h a ≠ .panic s :=
+  NP.attachmentConformsTo_np h a s
+
+theorem c16_validateAttachment_no_panic (a : Env) (s : String) : validateAttachment h a ≠ .panic s :=
+  NP.validateAttachment_np h a s
+
+theorem c16_attachmentsWith_no_panic (e : Env) (vendor conformsTo : Option Bytes) (s : String) :
+    attachmentsWith h e vendor conformsTo ≠ .panic s :=
+  NP.attachmentsWith_np h e vendor conformsTo s
+
+theorem c16_attachmentWith_no_panic (e : Env) (vendor conformsTo : Option Bytes) (s : String) :
+    attachmentWith h e vendor conformsTo ≠ .panic s :=
+  NP.attachmentWith_np h e vendor conformsTo s
+
+/-! ### expressions, requests, responses, events: no hypothesis -/
+
+theorem c16_Expression_withParameter_no_panic (x : Expression) (p : Ident) (v : Env) (s : String) :
+    Expression.withParameter h x p v ≠ .panic s :=
+  NP.of_isOk (NP.withParameter_isOk h x p v) s
+
+theorem c16_Expression_parse_no_panic (e : Env) (s : String) : Expression.parse e ≠ .panic s :=
+  NP.expressionParse_np e s
+
+theorem c16_Request_toEnvelope_no_panic (r : Request) (s : String) :
+    Request.toEnvelope h r ≠ .panic s :=
+  NP.of_isOk (NP.requestToEnvelope_isOk h r) s
+
+theorem c16_Request_parse_no_panic (e : Env) (expected : Option Ident) (s : String) :
+    Request.parse h e expected ≠ .panic s :=
+  NP.requestParse_np h e expected s
+
+theorem c16_Response_toEnvelope_no_panic (r : Response) (s : String) :
+    Response.toEnvelope h r ≠ .panic s :=
+  NP.of_isOk (NP.responseToEnvelope_isOk h r) s
+
+theorem c16_Response_parse_no_panic (e : Env) (s : String) : Response.parse h e ≠ .panic s :=
+  NP.responseParse_np h e s
+
+theorem c16_Event_toEnvelope_no_panic (ev : Event) (s : String) : Event.toEnvelope h ev ≠ .panic s :=
+  NP.of_isOk (NP.eventToEnvelope_isOk h ev) s
+
+theorem c16_Event_parse_no_panic (e : Env) (s : String) : Event.parse h e ≠ .panic s :=
+  NP.eventParse_np h e s
+
+/-! ### histories -/
+
+/-- one step of the operation language (`Op`: the assertion edits, wrap / unwrap, subject,
+elide, the traversal with every action, compress, encrypt, unelide, decode, re-encode,
+uncompress, decrypt) on an envelope satisfying the invariant: whatever the arguments -/
+theorem c16_applyOp_no_panic (hH : HashValid h) (o : Op) {e : Env} (hi : Inv h e) (s : String) :
+    applyOp h A Z o e ≠ .panic s :=
+  NP.applyOp_np h A Z hH o hi s
+
+example : HashValid toyHash ∧ Inv toyHash sNode := ⟨toyHash_valid, sNode_inv⟩
+
+/-- along any finite history of operations starting from an envelope that satisfies the
+invariant, with arguments that satisfy it, no step panics (every recorded result is an
+envelope or the error that ended the run) -/
+theorem c16_history_no_panic (hH : HashValid h) (ops : List Op) (e0 : Env) (hi : Inv h e0)
+    (ha : ∀ o ∈ ops, ∀ a ∈ o.args, Inv h a) (s : String) :
+    Res.panic s ∉ runHistory h A Z e0 ops :=
+  NP.history_np h A Z hH ops e0 hi ha s
+
+/-- a history whose hypotheses hold and which does run through obscuring, decoding and
+editing steps -/
+example :
+    HashValid toyHash ∧ Inv toyHash sNode ∧
+    (∀ o ∈ ([.wrap, .compress, .uncompress, .unwrap, .reencode, .encryptWhole [1] [2],
+        .decryptWhole [1], .addAssertion sA3, .elideSet sTarget true .compress] : List Op),
+      ∀ a ∈ o.args, Inv toyHash a) ∧
+    Res.ok (wrap toyHash sNode) ∈ runHistory toyHash idAead idDeflate sNode
+        [.wrap, .compress, .uncompress, .unwrap, .reencode, .encryptWhole [1] [2], .decryptWhole [1],
+         .addAssertion sA3, .elideSet sTarget true .compress] :=
+  ⟨toyHash_valid, sNode_inv, by simp [Op.args, sA3_inv], by simp [runHistory, applyOp]⟩
+
+/-- closure form: no operation panics on anything the library can produce or decode
+(`Produced`: closed under the constructors and all operations, decoding ones included) -/
+theorem c16_produced_no_panic (hH : HashValid h) {dec : Bool} {e : Env}
+    (hp : Produced h A Z dec e) (o : Op) (s : String) : applyOp h A Z o e ≠ .panic s :=
+  NP.applyOp_np h A Z hH o (produced_inv_all h A Z hH hp) s
+
+example : HashValid toyHash ∧ Produced toyHash idAead idDeflate true sA1 :=
+  ⟨toyHash_valid,
+   .op (.assertionWithObject (newLeaf toyHash (.uint 10))) (newKnownValue toyHash 1) sA1 (.knownValue 1)
+    (by intro a ha; simp only [Op.args, List.mem_singleton] at ha; subst ha; exact .leaf _)
+    (fun hf => by cases hf) rfl⟩
+
+/-! ### the unconditional theorems on the envelopes the property names -/
+
+/-- a salted (decorated) assertion: the element the lookup finds is a node carrying its own
+assertion, and the lookups return its object -/
+example :
+    (match addAssertionSalted toyHash sSubj (newKnownValue toyHash 1) (newLeaf toyHash (.uint 10))
+        (some [1, 2, 3, 4, 5, 6, 7, 8]) with
+      | .ok e => e.assertions.any Env.isNode &&
+          (objectForPredicate e (newKnownValue toyHash 1)).isOk &&
+          (objectsForPredicate e (newKnownValue toyHash 1)).isOk &&
+          (optionalObjectForPredicate e (newKnownValue toyHash 1)).isOk
+      | _ => false) = true := by decide +kernel
+
+/-- envelopes with parts already compressed or encrypted: values or errors -/
+example :
+    (compressSubject toyHash idDeflate sNodeC).isOk = true ∧
+    (uncompressSubject toyHash idDeflate sNodeC).isOk = true ∧
+    (decryptSubject toyHash idAead [9] sNodeC).isPanic = false ∧
+    (encryptSubject toyHash idAead [1] [2] sEnc).isPanic = false ∧
+    (compress idDeflate sEnc).isPanic = false ∧
+    (objectForPredicate sNodeC (newKnownValue toyHash 1)).isOk = true := by decide +kernel
+
+end
 end EnvVerif
